@@ -165,7 +165,7 @@ def build_equilibrium(desc, workdir):
 
         inp = g_inputs(desc["eq"])
         entry = desc.get("entry", "api")
-        if entry in ("api", "api-inconsistent"):
+        if entry in ("api", "api-inconsistent", "regrid-history"):
             eq = tokamak.TokamakEquilibrium(
                 inp["R1D"].copy(),
                 inp["Z1D"].copy(),
@@ -354,7 +354,7 @@ def main(casedir):
             numpy.seterr(all="ignore")
             from hypnotoad.core.mesh import BoutMesh
 
-            if desc.get("entry", "api") not in ("api", "api-inconsistent"):
+            if desc.get("entry", "api") not in ("api", "api-inconsistent", "regrid-history"):
                 run_cli(desc, casedir)
                 if not os.path.exists(os.path.join(casedir, "grid.nc")):
                     raise RuntimeError("entry point returned without writing a grid file")
@@ -385,6 +385,36 @@ def main(casedir):
                 status["outcome"] = "equilibrium"
             else:
                 mesh = BoutMesh(eq, options)
+                if desc.get("entry") == "regrid-history":
+                    # what the GUI does: Run -> calculateRZ; Regrid -> redistributePoints +
+                    # calculateRZ (with the complete option dictionary); Write Grid -> geometry
+                    mesh.calculateRZ()
+
+                    def ends():
+                        out = {}
+                        for rid, reg in mesh.regions.items():
+                            out[rid] = [numpy.array(a, copy=True) for a in (
+                                reg.Rxy.ylow[:, 0], reg.Zxy.ylow[:, 0], reg.Rxy.ylow[:, -1], reg.Zxy.ylow[:, -1],
+                                reg.Rxy.corners[:, 0], reg.Zxy.corners[:, 0], reg.Rxy.corners[:, -1], reg.Zxy.corners[:, -1])]
+                        return out
+
+                    moved = []
+                    current = dict(options)
+                    for k, step in enumerate(desc["history"]):
+                        before = ends()
+                        current.update(step["set"])
+                        if step.get("geometry_before"):
+                            mesh.geometry()
+                        mesh.redistributePoints(dict(current))
+                        mesh.calculateRZ()
+                        after = ends()
+                        worst = 0.0
+                        for rid in before:
+                            for a, b in zip(before[rid], after[rid]):
+                                worst = max(worst, float(numpy.abs(a - b).max()))
+                        moved.append(worst)
+                    status["region_end_movement"] = moved
+                    status["mesh_options_after"] = {k: (v if isinstance(v, (int, float, str, bool, type(None))) else repr(v)) for k, v in dict(mesh.user_options).items()}
                 mesh.geometry()
                 status["t_geometry"] = time.time() - t0
                 mesh.writeGridfile(os.path.join(casedir, "grid.nc"))
